@@ -67,6 +67,16 @@ func RawName() *rapid.Generator[string] {
 		if s[0] == '_' {
 			s = "u" + s[1:]
 		}
+		switch rapid.IntRange(0, 11).Draw(t, "shape") {
+		case 0: // a name that already starts with what a configured namespace would put in front
+			s = rapid.SampledFrom([]string{"ns.", "a.b.", "ns", "a.b", "stats."}).Draw(t, "nsprefix") + s
+		case 1: // a long name (around any fixed-size scratch buffer an implementation may use)
+			n := rapid.SampledFrom([]int{60, 100, 118, 124, 125, 126, 127, 128, 129, 140, 255, 256, 300}).Draw(t, "longlen")
+			for len(s) < n {
+				s += "." + s
+			}
+			s = s[:n]
+		}
 		return s
 	})
 }
